@@ -104,3 +104,124 @@ Theorem join_delivery_receiver : forall v np ops c, jv_alloc_table v = true -> j
     | _ => True
     end.
 Proof. intros v np ops c Hv Hr t th k d Hth Hin. exact (D_ev c (DN_reach v np ops c Hv Hr) t th k d Hth Hin). Qed.
+
+(* ---- a promise with a result is not joined; a non-caller delivery was made at the END of the chain *)
+Definition RN (c : jconfig) : Prop := forall k, p_result (getp c k) <> None -> p_next (getp c k) = None.
+
+Lemma RN_step : forall v c t c', JR c -> JZ c -> JE4 c -> RN c -> jstep v c t = Some c' -> RN c'.
+Proof.
+  intros v c t c' HR HZ HE HN Hs.
+  unfold jstep in Hs. destruct (nth_error (jthreads c) t) as [th|] eqn:Hth; [|discriminate].
+  assert (Hact : jphase (j_cur th) th = true -> p_next (getp c (j_cur th)) = None).
+  { intros Hp. pose proof (jcount_mem _ _ _ _ Hth Hp) as Hpos. rewrite (HE (j_cur th)) in Hpos.
+    unfold act, p_is_joined in Hpos. destruct (p_next (getp c (j_cur th))); [|reflexivity].
+    rewrite andb_false_r in Hpos. simpl in Hpos. lia. }
+  pose proof (fun k => proj1 (HZ k)) as Hcn.
+  junfold Hs. jexplode Hs; inversion Hs; subst; clear Hs.
+  all: unfold resolve_entry, do_known, do_final; goal_matches.
+  all: own_phase HR Hth.
+  all: norm_negb.
+  all: unfold jphase, jpre, jpost in Hact;
+       repeat match goal with H : j_pc _ = _ |- _ => rewrite H in Hact end; rewrite ?Nat.eqb_refl in Hact; simpl in Hact.
+  all: intros k0; pose proof (HN k0) as H0.
+  all: repeat progress (autorewrite with getp_simp; rewrite ?next_close_sigs, ?result_close_sigs).
+  all: eqb_all; simpl; rewrite ?next_close_joined, ?result_close_joined; simpl; try exact H0.
+  all: intros Hres.
+  all: try (exfalso; specialize (Hpre eq_refl); destruct Hpre as [_ Hrn]; exact (Hres Hrn)).
+  all: try (apply Hact; reflexivity).
+  all: apply Hcn; assumption.
+Qed.
+
+Lemma RN_reach : forall v np ops c, jv_alloc_table v = true -> jreach v np ops c -> RN c.
+Proof.
+  intros v np ops c Hv H. induction H as [|c t c' Hr IH Hs].
+  - intros k Hres. destruct (getp_init np ops k) as [E|E]; rewrite E in *; reflexivity.
+  - exact (RN_step v c t c' (JR_reach v np ops c Hr) (JZ_reach v np ops c Hv Hr) (JE4_reach v np ops c Hv Hr) IH Hs).
+Qed.
+
+Definition DE (c : jconfig) : Prop :=
+  forall t k d, In (JEDeliver t k d) (jevents c) -> d <> DCaller -> p_next (getp c k) = None.
+
+Lemma DE_step : forall v c t c', JR c -> JS c -> JK c -> JF c -> RN c -> DE c -> jstep v c t = Some c' -> DE c'.
+Proof.
+  intros v c t c' HR HS HK HF HN HD Hs.
+  unfold jstep in Hs. destruct (nth_error (jthreads c) t) as [th|] eqn:Hth; [|discriminate].
+  pose proof (HK t th Hth) as Hkok. unfold kok in Hkok.
+  assert (Hsig : forall k, jphase k th = true -> p_signals (getp c k) <> []).
+  { intros k Hp. apply (S_thr c HS t th k Hth). unfold jphase in Hp. apply orb_true_iff in Hp. exact Hp. }
+  junfold Hs. jexplode Hs; inversion Hs; subst; clear Hs.
+  all: unfold resolve_entry, do_known, do_final; goal_matches.
+  all: own_phase HR Hth.
+  all: repeat match goal with H : j_pc _ = _ |- _ => rewrite H in Hkok end.
+  all: unfold jphase, jpre, jpost in Hsig; repeat match goal with H : j_pc _ = _ |- _ => rewrite H in Hsig end; simpl in Hsig.
+  all: intros t0 k0 d0 Hin Hd; simpl in Hin; rewrite ?close_sigs_events in Hin; simpl in Hin.
+  all: repeat (destruct Hin as [Hin|Hin]; [try discriminate Hin|]).
+  (* an older delivery *)
+  all: try (pose proof (HD _ _ _ Hin Hd) as Hnx; pose proof (HF _ _ _ Hin Hd) as [Hfa Hfb];
+            repeat progress (autorewrite with getp_simp; rewrite ?next_close_sigs);
+            eqb_all; simpl; rewrite ?next_close_joined; simpl;
+            first [ exact Hnx
+                  | (exfalso; specialize (Hpre eq_refl); destruct Hpre as [_ Hrn];
+                     destruct Hfb as [Hfb|Hfb]; [exact (Hfb Hrn)|];
+                     apply (Hsig (j_cur th)); [rewrite ?Nat.eqb_refl; reflexivity|exact Hfb]) ]).
+  (* the delivery made in this step: at a promise without a next edge *)
+  all: inversion Hin; subst; try (exfalso; apply Hd; reflexivity).
+  all: repeat progress (autorewrite with getp_simp); first [assumption|apply HN; exact (proj2 Hkok)].
+Qed.
+
+Lemma DE_reach : forall v np ops c, jv_alloc_table v = true -> jreach v np ops c -> DE c.
+Proof.
+  intros v np ops c Hv H. induction H as [|c t c' Hr IH Hs]; [intros t k d []|].
+  exact (DE_step v c t c' (JR_reach v np ops c Hr) (JS_reach v np ops c Hr) (JK_reach v np ops c Hr)
+           (JF_reach v np ops c Hr) (RN_reach v np ops c Hv Hr) IH Hs).
+Qed.
+
+(* pipelined_exactly_once, destination part on chains, tied to the receiver: a delivery of call t was made at a
+   promise k reached along next from the call's receiver (the promise of PipelineSend/Recv, or the owner of the proxy
+   client the call came through); it went to k's PipelineCaller (only while k was unresolved: join_caller_before_
+   resolution), or k is the END of that chain, its result is final, and the call went to what that result holds at the
+   call's path *)
+Theorem join_delivery_destination_recv : forall v np ops c, jv_alloc_table v = true -> jreach v np ops c ->
+  forall t th k d, nth_error (jthreads c) t = Some th -> In (JEDeliver t k d) (jevents c) ->
+    match j_op th with
+    | JSend k0 _ _ => nreach c k0 k
+    | JCall _ _ => exists x, j_via th = Some x /\ nreach c (jx_owner (getx c x)) k
+    | _ => True
+    end /\
+    (d = DCaller \/
+     (p_next (getp c k) = None /\ d = res_dest (jcur_res (getp c k)) (j_path th) /\ p_caller (getp c k) = false /\
+      (p_result (getp c k) <> None \/ p_signals (getp c k) = []))).
+Proof.
+  intros v np ops c Hv Hr t th k d Hth Hin. split; [exact (join_delivery_receiver v np ops c Hv Hr t th k d Hth Hin)|].
+  destruct (join_delivery_destination v np ops c Hr t th k d Hth Hin) as [H|[A [B C]]]; [left; exact H|].
+  destruct (dest_caller_dec d) as [Hd|Hd]; [left; exact Hd|right].
+  split; [exact (DE_reach v np ops c Hv Hr t k d Hin Hd)|]. auto.
+Qed.
+
+(* pipelined_exactly_once on chains, the three parts in one statement *)
+Theorem join_pipelined_exactly_once_full : forall v np ops c, jv_alloc_table v = true -> jreach v np ops c ->
+  (forall t th, nth_error (jthreads c) t = Some th ->
+    match j_op th with
+    | JSend _ _ _ =>
+      (jcnt (jis_deliver t) (jevents c) <= 1)%nat /\
+      (j_pc th = QDone -> jcnt (jis_deliver t) (jevents c) = 1%nat)
+    | JCall _ _ =>
+      (jcnt (jis_deliver t) (jevents c) <= 1)%nat /\
+      (j_pc th = QDone -> (j_out th = ONoSlot /\ jcnt (jis_deliver t) (jevents c) = 0%nat) \/
+                          (j_out th = ORet /\ jcnt (jis_deliver t) (jevents c) = 1%nat))
+    | _ => True
+    end) /\
+  wf_jcaller (jevents c) /\
+  (forall t th k d, nth_error (jthreads c) t = Some th -> In (JEDeliver t k d) (jevents c) ->
+    match j_op th with
+    | JSend k0 _ _ => nreach c k0 k
+    | JCall _ _ => exists x, j_via th = Some x /\ nreach c (jx_owner (getx c x)) k
+    | _ => True
+    end /\
+    (d = DCaller \/
+     (p_next (getp c k) = None /\ d = res_dest (jcur_res (getp c k)) (j_path th) /\ p_caller (getp c k) = false /\
+      (p_result (getp c k) <> None \/ p_signals (getp c k) = [])))).
+Proof.
+  intros v np ops c Hv H. split; [exact (join_pipelined_exactly_once v np ops c H)|].
+  split; [exact (join_caller_before_resolution v np ops c H)|exact (join_delivery_destination_recv v np ops c Hv H)].
+Qed.
